@@ -22,7 +22,14 @@ def main():
         entry = {"commits": e["commits"], "props": {}}
         try:
             ok = True
-            for c in e["commits"]:
+            if e.get("patch"):
+                # the plain revert conflicts with later commits: a hand-resolved reverse patch is applied instead
+                rc, out = sh(["git", "-C", d, "apply", os.path.join(ROOT, "selftest", e["patch"])])
+                if rc != 0:
+                    entry["revert"] = "patch does not apply: " + out[-300:]
+                    ok = False
+                entry["patch"] = e["patch"]
+            for c in ([] if e.get("patch") else e["commits"]):
                 rc, out = sh(["git", "-C", d, "revert", "--no-commit", c])
                 if rc != 0:
                     entry["revert"] = "conflict: " + out[-300:]
